@@ -774,9 +774,15 @@ def hilbert_checks(ctx):
     ctx.tag("hilbert-generator-checked")
 
 
+from harness import c02_orders
+THEOREMS = THEOREMS + c02_orders.THEOREMS_ORDERS
+CLAIM = dict(CLAIM, text=CLAIM["text"] + " " + c02_orders.CLAIM_ORDERS, note=CLAIM["note"] + " " + c02_orders.NOTE_ORDERS)
+
+
 def run(ctx):
-    ctx.extra["rule"] = RULE
+    ctx.extra["rule"] = RULE + " " + c02_orders.RULE_ORDERS
     hilbert_checks(ctx)
+    c02_orders.run_orders(ctx)
     ctx.extra["trusted_base"] = ["rig_c_sa (compiled annealing kernel outside /repo): opaque, checked only by the Feasible oracle",
                                  "the annealer's float cost/temperature arithmetic is abstracted to the recorded accept decision"]
     ctx.assumptions += [
@@ -806,4 +812,7 @@ def run(ctx):
 
 def replay(ctx, payload):
     ctx.extra["rule"] = RULE
-    eval_problems(ctx, [payload["case"]["problem"]])
+    case = payload["case"]
+    if "orders" in case or "orders-fixed" in case:
+        return c02_orders.replay_orders(ctx, payload)
+    eval_problems(ctx, [case["problem"]])
